@@ -219,5 +219,7 @@ limit_witness!(c08_witness_limit_first2, 0, 2, [10, 20]);
 limit_witness!(c08_witness_limit_1_to_minus1, 1, -1, [20, 30]);
 limit_witness!(c08_witness_limit_0_to_minus1, 0, -1, [10, 20, 30]);
 limit_witness!(c08_witness_limit_last2, -2, 0, [30, 40]);
+limit_witness!(c08_witness_limit_neg_neg, -3, -1, [20, 30]);
+limit_witness!(c08_witness_limit_neg_neg_empty, -1, -2, []);
 
 // (a symbolic version - begin and end in -6..=6 over 4 items, buffer pre-sized - gave no verdict within an hour)
